@@ -13,6 +13,9 @@ fn hex(u: Uuid) -> String {
 
 pub fn run(scn: &Value) -> Value {
     let backend = scn["backend"].as_str().unwrap_or("local");
+    if backend == "http" {
+        return crate::http_scn::run(scn);
+    }
     if backend != "local" {
         return json!({"error": format!("unknown backend {backend}")});
     }
